@@ -87,9 +87,7 @@ def judge (arg impl : String) : String :=
           if field impl "again" ≠ some "same" then "fail query: get_seq_data answered differently the second time" else
           if field impl "count" ≠ some (toString songs.length) then "fail count: get_seq_count" else
           match LinkSpec.resolveBank songs seq pcm with
-          | .error e =>
-            if (e.splitOn "pcm region").length > 1 ∧ songs.any (fun s => s.slots.any fun sl => sl.start ≠ 0)
-            then s!"fail d11:offset-window {e}" else s!"fail bank: {e}"
+          | .error e => s!"fail bank: {e}"
           | .ok () =>
             match LinkSpec.resolveHeaders songs asm c with
             | .error e => s!"fail headers: {e}"
